@@ -47,7 +47,8 @@ func c13(c *Ctx) {
 		"(egress) every result of entriesToProtoKeyset flows only into encrypt*, into Writer.Write dominated by hasSecrets(it)==false, or out of keysetMaterial; every keyset.Writer.Write call in product code is so guarded or in the two insecure packages; " +
 		"(encrypted) decrypt*/encrypt* call the caller's AEAD exactly once, with the caller's associatedData parameter and the stored ciphertext / marshalled keyset, release a keyset only under err==nil of that call, EncryptedKeyset literals are built only there; every caller passes its own associatedData parameter through; " +
 		"(info) KeysetInfo/KeyInfo literals are filled only from type URL, status, key ID and prefix type, String() prints only KeysetInfo(). " +
-		"secretdata's copy-in/copy-out is decided under C19. Not decided: confidentiality of the caller's AEAD; keys whose KeyMaterialType label contradicts their type URL (left to the per-type parsers, see C14)."
+		"(label) hasSecrets trusts the KeyMaterialType label, so every registered key parser, folded with the label bound to each constant, must be able to succeed for exactly one label, and the generic ParseKey may fall back to an opaque key only when no parser is registered. " +
+		"secretdata's copy-in/copy-out is decided under C19. Not decided: confidentiality of the caller's AEAD."
 	hs := p.PkgFunc("keyset", "hasSecrets")
 	if hs == nil {
 		r.AnchorMissing("C13.classify", "keyset.hasSecrets")
@@ -58,6 +59,7 @@ func c13(c *Ctx) {
 	c13Egress(c, hs)
 	c13Encrypted(c)
 	c13Info(c)
+	c13Label(c)
 }
 
 // ---------------------------------------------------------------- classify
